@@ -211,6 +211,25 @@ fn main() {
     }
 }
 
+/// `text` as a cooked Rust string literal with some backslash-newline continuations at places where the character after
+/// the continuation is not white space (so the value of the literal is exactly `text`)
+fn cooked_with_continuations(text: &str, seed: u64) -> String {
+    let mut out = String::from("\"");
+    let chars: Vec<char> = text.chars().collect();
+    let mut k = seed;
+    for (i, c) in chars.iter().enumerate() {
+        let esc: String = c.escape_debug().collect();
+        out.push_str(&if *c == '\'' { "'".to_string() } else { esc });
+        k = k.wrapping_mul(6364136223846793005).wrapping_add(1442695040888963407);
+        let next_ok = chars.get(i + 1).map_or(false, |n| !n.is_whitespace());
+        if next_ok && (k >> 33) % 7 == 0 {
+            out.push_str("\\\n          ");
+        }
+    }
+    out.push('"');
+    out
+}
+
 /// Build batch crates for a list of specs.
 fn build_batch(specs: Vec<GrammarSpec>, out: &Path, crates: usize, plan: &str, stats: serde_json::Value) {
     std::fs::create_dir_all(out).unwrap();
@@ -259,7 +278,13 @@ fn build_batch(specs: Vec<GrammarSpec>, out: &Path, crates: usize, plan: &str, s
                 spec.model = with_w;
                 spec.exported = gl.exported.clone();
                 let code = if spec.flags.via_macro {
-                    format!("peginator_macro::peginate!(r################\"{}\"################);\n", text)
+                    // how the invoking source spells the grammar literal: raw string, cooked string with escapes, cooked string
+                    // with backslash-newline continuations (Rust drops the line break AND the indentation that follows)
+                    match h % 3 {
+                        0 => format!("peginator_macro::peginate!(r################\"{}\"################);\n", text),
+                        1 => format!("peginator_macro::peginate!({:?});\n", text),
+                        _ => format!("peginator_macro::peginate!({});\n", cooked_with_continuations(&text, h)),
+                    }
                 } else {
                     code
                 };
